@@ -21,6 +21,18 @@ Tie to the code, every run:
                densities, mode maximal, moments = moments of the estimator's own density,
                covariance of mode / mean / variance / skewness / kurtosis / interval.
                Tolerances are wide: only gross failures alarm.
+  [X-judged]   interval sweep: both estimators fitted to SMALL samples (120..400 points; thorough
+               120..900) under every transform, `interval(f)` for fractions over the whole of
+               (0, 1): below 1/n (the sample-based start has zero width), a few /n, mid range,
+               0.99, 0.995..0.9995, and a fraction ABOVE the probability of every window as wide
+               as the sample range (measured on the fitted estimator's own cdf), where the
+               interval has to extend beyond the data.  The values the real __hdi_cost reads at
+               the returned (c, w) -- and, when the mass is off, the real cost of neighbouring
+               intervals -- go to Coq as exact rationals; Model.Moments.check_interval (sound by
+               C19_check_interval_sound) judges them; C19_width_limited_search_misses /
+               C19_restricted_search_misses say what a search confined to the sample range can
+               reach.  The property oracle (mass under the estimator's own cdf and under the
+               integral of its pdf) then reports the failing input.
 """
 from __future__ import annotations
 
@@ -41,7 +53,9 @@ THEOREMS = ["C19_moments_shift_scale", "C19_kurtosis_invariant", "C19_skewness_s
             "C19_pinned_mean_shift", "C19_pinned_mean_shift_iff", "C19_kde_mean_shift_refuted",
             "C19_central_moment_identity", "C19_family_affine", "C19_family_affine_log",
             "C19_family_norm_affine", "C19_hdi_cost_zero_iff", "C19_hdi_cost_nonneg",
-            "C19_hdi_cost_q_correct"]
+            "C19_hdi_cost_q_correct", "C19_hdi_cost_small_bounds", "C19_confined_interval_mass",
+            "C19_width_limited_search_misses", "C19_restricted_search_misses",
+            "C19_check_interval_sound", "C19_check_interval_complete_mass"]
 
 HEADER = """From Coq Require Import List ZArith QArith.
 From IT Require Import Model.Moments.
@@ -262,6 +276,8 @@ def gen_sample(kind, n, r):
         return np.array([r.gauss(0, 1) / math.sqrt(sum(r.gauss(0, 1) ** 2 for _ in range(5)) / 5) for _ in range(n)])
     if kind == "lognormal":
         return np.array([math.exp(0.4 * r.gauss(0, 1)) for _ in range(n)])
+    if kind == "expn":      # normal + exponential: smooth, skewed, exponential right tail
+        return np.array([r.gauss(0, 1) + r.expovariate(0.5) for _ in range(n)])
     raise ValueError(kind)
 
 
@@ -382,6 +398,180 @@ def metamorphic_case(est, kind, n, stream, transforms):
     return bad
 
 
+# ---------------------------------------------------------------- 6. interval sweep (small samples, all fractions)
+SWEEP_TIGHT = Fraction(3, 1000)     # mass error above this needs the returned point to be a local optimum of its cost
+SWEEP_LOOSE = Fraction(1, 100)      # mass error above this always alarms
+SWEEP_ENDS = Fraction(1, 50)        # on wt * (Pa - Pb) = 0.2 * (end-density mismatch / peak): 10 % of the peak
+#   measured on the repaired tree (D32 + D33), 24000 intervals (160 seeds): mass error <= 1.5e-3 in the sweep
+#   (<= 3e-7 unless an end sits on a hard edge / zero-density gap of the fitted density, where the cost has no
+#   zero; 2.8e-3 is the largest seen anywhere, at a local optimum of the cost), mismatch <= 3.4 % of the peak,
+#   nothing rejected; with the seeded bounds on the search every one of 20 seeds rejects 6..13 intervals
+SWEEP_RTOL, SWEEP_ATOL = Fraction(1, 10 ** 6), Fraction(1, 10 ** 22)   # float cost vs exact cost of the same end values
+SWEEP_TRANSFORMS = [(1.0, 0.0)] + TRANSFORMS
+SWEEP_BASE = [("kde", "normal"), ("kde", "gamma"), ("kde", "expn"), ("kde", "t5"),
+              ("uni", "normal"), ("uni", "gamma"), ("uni", "expn"), ("uni", "lognormal")]
+
+
+def sweep_plan(r, quick):
+    """(estimator, kind, n, (a, b)) -- every transform is used in every run."""
+    out = []
+    off = r.randrange(len(SWEEP_TRANSFORMS))
+    reps = 1 if quick else 4
+    for rep_i in range(reps):
+        for j, (est, kind) in enumerate(SWEEP_BASE):
+            n = r.randint(120, 400) if quick else r.randint(120, 900)
+            out.append((est, kind, n, SWEEP_TRANSFORMS[(j + off + 3 * rep_i) % len(SWEEP_TRANSFORMS)]))
+    return out
+
+
+def recording_class(cls):
+    """The real estimator, with the values its pdf / cdf hand to __hdi_cost recorded."""
+    class Rec(cls):
+        _log = None
+
+        def __call__(self, x):
+            out = cls.__call__(self, x)
+            if self._log is not None:
+                self._log.append(("P", np.array(out, dtype=float).ravel().copy()))
+            return out
+
+        def cdf(self, x):
+            out = cls.cdf(self, x)
+            if self._log is not None:
+                self._log.append(("F", np.array(out, dtype=float).ravel().copy()))
+            return out
+    Rec.__name__ = cls.__name__
+    return Rec
+
+
+def real_cost(e, c, w, f, wt):
+    """The real __hdi_cost at (c, w) and the end values it read."""
+    e._log = []
+    try:
+        cost = float(e._DensityEstimator__hdi_cost((c, w), f, wt))
+        P = next(v for k, v in e._log if k == "P" and v.size == 2)
+        F = [v for k, v in e._log if k == "F" and v.size == 2][-1]
+    finally:
+        e._log = None
+    return cost, (float(P[0]), float(P[1]), float(F[0]), float(F[1]))
+
+
+def widest_window_mass(e, s):
+    """max over x of cdf(x + R) - cdf(x), R = range of the sample, on the estimator's own cdf."""
+    lo, hi = float(s.min()), float(s.max())
+    R = hi - lo
+    xs = np.linspace(lo - 0.5 * R, lo + 0.5 * R, 41)
+    F = np.atleast_1d(e.cdf(np.concatenate([xs, xs + R])))
+    return float(np.max(F[41:] - F[:41])), float(F[41 + 20] - F[20])
+
+
+def sweep_fractions(r, n):
+    return [("below 1/n", r.uniform(0.2, 0.95) / n), ("few/n", r.uniform(1.2, 6.0) / n),
+            ("mid", r.uniform(0.02, 0.2)), ("mid", r.uniform(0.2, 0.6)), ("mid", 0.6827),
+            ("mid", r.uniform(0.8, 0.97)), ("0.99", 0.99), (">=0.995", r.uniform(0.995, 0.9995))]
+
+
+def probe_points(c, w, unit):
+    pts = []
+    for eta in (0.01, 0.03, 0.1, 0.3):
+        d = eta * unit
+        pts += [(c, w + d), (c, max(w - d, 0.0)), (c + 0.5 * d, w), (c - 0.5 * d, w),
+                (c + 0.5 * d, w + d), (c - 0.5 * d, w + d)]
+    return pts
+
+
+def interval_case(e, s, f, tag):
+    """One call of the real interval(f) on the fitted estimator e; everything the judgement needs."""
+    sd = float(np.std(s))
+    rec = {"f": f, "tag": tag}
+    with warnings.catch_warnings():
+        warnings.simplefilter("ignore")
+        try:
+            lo, hi = (float(v) for v in e.interval(f))
+            rec["interval"] = (lo, hi)
+            c, w = 0.5 * (lo + hi), hi - lo
+            wt = 0.2 / float(e(e.mode))
+            cost, (Pa, Pb, Fa, Fb) = real_cost(e, c, w, f, wt)
+            rec.update(wt=wt, cost=cost, ends=(Pa, Pb, Fa, Fb), mass=Fb - Fa)
+            probes = []
+            if not abs(Fb - Fa - f) <= float(SWEEP_TIGHT):
+                for c2, w2 in probe_points(c, w, max(w, 0.05 * sd)):
+                    try:
+                        probes.append(real_cost(e, c2, w2, f, wt)[0])
+                    except Exception:
+                        pass
+                probes = [v for v in probes if v == v and abs(v) != float("inf")]
+            rec["probes"] = probes
+            vals = [wt, Pa, Pb, Fa, Fb, f, cost] + probes
+            rec["q"] = [C.frac(v) for v in vals]
+            rec["status"] = "ok"
+        except Exception as ex:
+            rec["status"] = "exception"
+            rec["error"] = repr(ex)[:300]
+    return rec
+
+
+def sweep_case(est, kind, n, tr, stream, only_fraction=None):
+    """Fit the real estimator to a seeded small sample under the transform and call interval(f)
+    over the whole range of fractions.  Returns (records, info)."""
+    GaussianKDE, UnimodalPdf, _ = mods()
+    cls = recording_class(GaussianKDE if est == "kde" else UnimodalPdf)
+    r = C.rng_for(PROP, stream)
+    z = gen_sample(kind, n, r)
+    a, b = tr
+    s = a * z + b
+    fr = sweep_fractions(r, n)
+    info = {"sd": float(np.std(s))}
+    with warnings.catch_warnings():
+        warnings.simplefilter("ignore")
+        try:
+            e = cls(s)
+            Mw, Mrange = widest_window_mass(e, s)
+            info.update(window_mass=Mw, range_mass=Mrange)
+            if 0.5 < Mw < 1.0:
+                fr.append(("above every sample-range window", min(Mw + 0.85 * (1.0 - Mw), 0.9997)))
+        except Exception as ex:
+            return [{"status": "exception", "error": "fitting raises " + repr(ex)[:300], "f": None, "tag": "fit"}], info, None, s
+    if only_fraction is not None:
+        fr = [(t, f) for t, f in fr if abs(f - only_fraction) <= 1e-12 * only_fraction] or [("replayed", only_fraction)]
+    return [interval_case(e, s, f, tag) for tag, f in fr], info, e, s
+
+
+def interval_property_failures(est, kind, n, tr, stream, f):
+    """The property itself on the real code, for one fraction: the interval must hold f under the
+    estimator's own cdf, the cdf must be the integral of the pdf over it, the end densities equal."""
+    recs, info, e, s = sweep_case(est, kind, n, tr, stream, only_fraction=f)
+    rec = recs[0]
+    name = f"{est} fitted to the seeded {kind} sample of {n} under x -> {tr[0]}*x + {tr[1]}"
+    if e is None:
+        return [f"{name}: {rec['error']}"]
+    if rec["status"] != "ok":
+        return [f"{name}: interval({rec['f']!r}) raises {rec['error']}"]
+    lo, hi = rec["interval"]
+    bad = []
+    with warnings.catch_warnings():
+        warnings.simplefilter("ignore")
+        x = np.linspace(lo, hi, 20001)
+        p = np.atleast_1d(e(x))
+        integral = float(np.sum(0.5 * (p[1:] + p[:-1]) * np.diff(x))) if hi > lo else 0.0
+        peak = float(e(e.mode))
+    Pa, Pb, Fa, Fb = rec["ends"]
+    mass = Fb - Fa
+    better = [v for v in rec["probes"] if 2 * v < rec["cost"]]
+    if abs(mass - f) > float(SWEEP_LOOSE) or (abs(mass - f) > float(SWEEP_TIGHT) and better):
+        why = (f"; an interval right next to it (wider / shifted by 1-30 %) has {rec['cost'] / max(min(better), 1e-300):.3g}x "
+               f"lower cost, so the search stopped or was confined short of it" if better else "")
+        bad.append(f"{name}: interval({f!r}) = ({lo!r}, {hi!r}) holds {mass:.6f} under the estimator's own cdf "
+                   f"(integral of its pdf over it: {integral:.6f}) instead of {f:.6f}; sample range "
+                   f"({float(s.min())!r}, {float(s.max())!r}) holds {info.get('range_mass', float('nan')):.6f}{why}")
+    if abs(integral - mass) > 0.003:
+        bad.append(f"{name}: cdf difference over interval({f!r}) is {mass:.6f} but the pdf integrates to {integral:.6f} there")
+    if abs(Pa - Pb) / peak > 0.1:
+        bad.append(f"{name}: interval({f!r}) = ({lo!r}, {hi!r}) has end densities {Pa!r}, {Pb!r} "
+                   f"(differ by {abs(Pa - Pb) / peak:.3f} of the peak)")
+    return bad
+
+
 # ---------------------------------------------------------------- Coq side
 def qpairs(xs, ps):
     return C.clist([f"({C.cq(x)}, {C.cq(p)})" for x, p in zip(xs, ps)]) + "%Q"
@@ -499,6 +689,46 @@ def run(rep: C.Report, tier: str) -> int:
     rep.coverage["metamorphic_fits_R"] = n_runs
     lap("[R] metamorphic runs")
 
+    # ---- interval sweep: small samples, fractions over all of (0, 1), judged in Coq
+    splan = sweep_plan(C.rng_for(PROP, "sweep-plan"), quick)
+    sweep = []          # (plan index, stream, record)
+    sweep_exc = []
+    worst = {"mass": 0.0, "ends": 0.0}
+    for j, (est, kind, n, tr) in enumerate(splan):
+        stream = f"sweep/{j}/{est}/{kind}"
+        recs, info, _, _ = sweep_case(est, kind, n, tr, stream)
+        rep.case(("sweep", est, kind, n, tr), nontrivial=True)
+        rep.count(f"sweep {est} n={'<200' if n < 200 else '<300' if n < 300 else '<=400' if n <= 400 else '>400'}")
+        rep.count(f"sweep transform {tr[0]:g}*x+{tr[1]:g}")
+        for rec in recs:
+            rep.count(f"sweep fraction {rec['tag']}")
+            if rec["status"] == "ok":
+                sweep.append((j, stream, rec))
+                worst["mass"] = max(worst["mass"], abs(rec["mass"] - rec["f"]))
+                worst["ends"] = max(worst["ends"], 5.0 * abs(rec["wt"] * (rec["ends"][0] - rec["ends"][1])))
+                if rec["probes"]:
+                    rep.count("sweep intervals with neighbouring-cost probes")
+            else:
+                sweep_exc.append((j, stream, rec))
+        if j < 2 and recs and recs[-1]["status"] == "ok":
+            rep.sample({"sweep": [est, kind, n, list(tr)], "window_mass": info.get("window_mass"),
+                        "fraction": recs[-1]["f"], "interval": recs[-1]["interval"], "mass": recs[-1]["mass"]})
+    rep.coverage["interval_sweep"] = {"estimators": len(splan), "intervals": len(sweep) + len(sweep_exc),
+                                      "largest_mass_error": worst["mass"], "largest_end_mismatch_of_peak": worst["ends"]}
+    w_texts = []
+    for j, stream, rec in sweep:
+        q = rec["q"]
+        w_texts.append("(" + ", ".join(C.cq(v) for v in q[:7]) + ", " + C.clist([C.cq(v) for v in q[7:]]) + ")")
+    sweep_file = None
+    if w_texts:
+        tol = " ".join(C.cq(v) for v in (SWEEP_TIGHT, SWEEP_LOOSE, SWEEP_ENDS, SWEEP_RTOL, SWEEP_ATOL))
+        body = ("Definition cases : list (Q*Q*Q*Q*Q*Q*Q*list Q) :=\n " + C.clist(w_texts, ";\n ") + ".\n"
+                "Definition chk (c : Q*Q*Q*Q*Q*Q*Q*list Q) : nat := let '(wt, Pa, Pb, Fa, Fb, f, cost, probes) := c in "
+                f"check_interval wt Pa Pb Fa Fb f cost probes {tol}.")
+        sweep_file = C.write_case_file(PROP, "sweep_0", HEADER, body, ["failing_codes chk cases 0"])
+        fut_sweep = pool.submit(C.run_case_file, sweep_file)
+    lap("interval sweep")
+
     # ---- collect Coq results
     outs = fut_cases.result()
     disagreements = []
@@ -534,6 +764,37 @@ def run(rep: C.Report, tier: str) -> int:
         x, th, got = ginfo[gid]
         rep.violation("C19/correspondence", f"log_pdf_model({x!r}, {th}) = {got!r} is not the model's value",
                       {"theorem_or_correspondence": "RealModel.Unimodal.log_pdf_model", "x": x, "theta": th}, False)
+    # the interval sweep, judged by Model.Moments.check_interval
+    sweep_viol = []
+    flagged = [(j, stream, rec, "raises") for j, stream, rec in sweep_exc]
+    if sweep_file is not None:
+        ok, res, log = fut_sweep.result()
+        if not ok or 0 not in res:
+            rep.obligation(False)
+            rep.violation("C19/correspondence-run", f"case file {sweep_file.name} did not evaluate",
+                          {"theorem_or_correspondence": f"correspondence file {sweep_file.name}", "log": log[-800:]}, False)
+        else:
+            rep.obligation(True)
+            codes = res[0]
+            for i in range(0, len(codes) - 1, 2):
+                j, stream, rec = sweep[codes[i]]
+                flagged.append((j, stream, rec, codes[i + 1]))
+    rep.coverage["interval_sweep"]["rejected_by_model_judgement"] = len(flagged)
+    seen_est = set()
+    for j, stream, rec, code in flagged:
+        est, kind, n, tr = splan[j]
+        if est in seen_est:
+            continue
+        seen_est.add(est)
+        rp = {"check": "interval-sweep", "estimator": est, "kind": kind, "n": n, "transform": list(tr),
+              "stream": stream, "fraction": rec["f"], "code": code}
+        bad = interval_property_failures(est, kind, n, tr, stream, rec["f"]) if rec["f"] is not None else [rec["error"]]
+        if bad:
+            sweep_viol.append((bad[0], rp, True))
+        else:
+            rp["theorem_or_correspondence"] = "Model.Moments.check_interval (C19_check_interval_sound)"
+            sweep_viol.append((f"interval({rec['f']!r}) of {est} on the seeded {kind} sample of {n}: the values read by the real "
+                               f"__hdi_cost at the returned interval are rejected by the model's judgement (code {code})", rp, False))
     lap("wait: Coq")
 
     # ---- failing-input search for the exact disagreements
@@ -564,7 +825,9 @@ def run(rep: C.Report, tier: str) -> int:
             rep.violation("C19/correspondence", f"__hdi_cost returned {got} ({err}); the model gives a different value",
                           {"theorem_or_correspondence": "Model.Moments.hdi_cost_q",
                            "inputs": {"w": str(w), "f": str(f), **{n: str(v) for n, v in vals.items()}}}, False)
-    # the runtime tests are reported after the exact disagreements (one per estimator)
+    # the interval sweep (one per estimator), then the runtime tests (one per estimator)
+    for what, rp, found in sweep_viol:
+        rep.violation("C19/property" if found else "C19/correspondence", what, rp, found)
     done = set()
     for what, rp in meta_viol:
         key = rp.get("estimator", rp["check"])
@@ -582,6 +845,11 @@ def run(rep: C.Report, tier: str) -> int:
         "scipy.integrate.simpson (1.18) is modelled as written incl. the even-N last-interval correction; floats of the "
         "recorded table are exact rationals; the float result may differ from the exact table moments by 1e-6 relative",
         "the stub estimators run the real moments / __hdi_cost / sample_moments code on prescribed inputs",
+        "interval sweep: Nelder-Mead itself is not modelled; the returned interval is judged (Model.Moments.check_interval, "
+        "sound by C19_check_interval_sound) from the values the real __hdi_cost reads at it: mass within 1e-2 of f always, "
+        "within 3e-3 unless no neighbouring interval (1-30 % wider / narrower / shifted) has less than half its cost "
+        "(the cost has no zero when an end sits on a hard edge or a zero-density gap of the fitted density), "
+        "end densities within 10 % of the peak",
     ]
     return rep.finish(
         level="proof",
@@ -593,7 +861,10 @@ def run(rep: C.Report, tier: str) -> int:
         rule="tables: two-bump skewed curves of mass 0.98..1.01 on 6..33-point grids at offsets 0..1e6 sd; sample_moments: "
              "dyadic samples (3..60 points) at offsets 0, 2^10, 2^20 and scales 2^-10..2^10; interval cost: dyadic inputs; "
              "family: theta over the fit bounds, |z| in [0.03, 10]; [R]: seeded normal / gamma / t5 / lognormal samples "
-             "(400..2500 points, thorough up to 20000) under shift 0..1e6 and scale 1e-6..1e6")
+             "(400..2500 points, thorough up to 20000) under shift 0..1e6 and scale 1e-6..1e6; interval sweep: both "
+             "estimators on seeded normal / gamma / normal+exponential / t5 / lognormal samples of 120..400 points "
+             "(thorough 120..900) under every transform, fractions below 1/n, a few /n, 0.02..0.97, 0.99, 0.995..0.9995 "
+             "and above the mass of every window as wide as the sample range")
 
 
 def table_property_failures(par):
@@ -647,6 +918,8 @@ def replay(path):
         bad = sample_property_failures([Fraction(v) for v in rp["sample"]])
     elif chk == "family-affine":
         bad = family_affine_failures(C.rng_for(PROP, "family-affine"))
+    elif chk == "interval-sweep":
+        bad = interval_property_failures(rp["estimator"], rp["kind"], rp["n"], tuple(rp["transform"]), rp["stream"], rp["fraction"])
     else:
         print("replay names a broken theorem / correspondence:", rp.get("theorem_or_correspondence"))
         return 1
